@@ -86,24 +86,31 @@ func c05encExec(c *cur) string {
 	notes := []string{}
 	// decoder-side escaping: decode followed by encode reproduces the original escaped values
 	if decoderMode && doc != "" {
+		// the same with the cast flag on and every tag exempted from casting (the values stay
+		// strings; escaping is not a cast and must not depend on the exemption)
+		castSkip := len(op0)%3 == 0
+		if castSkip {
+			mxj.SetCheckTagToSkipFunc(func(string) bool { return true })
+			defer mxj.SetCheckTagToSkipFunc(nil)
+		}
 		for _, seq := range []bool{false, true} {
 			var m1, m2 map[string]interface{}
 			var x []byte
 			var e1, e2, e3 error
 			if seq {
 				var a, b mxj.MapSeq
-				a, e1 = mxj.NewMapXmlSeq([]byte(doc))
+				a, e1 = mxj.NewMapXmlSeq([]byte(doc), castSkip)
 				if e1 == nil {
 					x, e2 = a.Xml()
-					b, e3 = mxj.NewMapXmlSeq(x)
+					b, e3 = mxj.NewMapXmlSeq(x, castSkip)
 				}
 				m1, m2 = a, b
 			} else {
 				var a, b mxj.Map
-				a, e1 = mxj.NewMapXml([]byte(doc))
+				a, e1 = mxj.NewMapXml([]byte(doc), castSkip)
 				if e1 == nil {
 					x, e2 = a.Xml()
-					b, e3 = mxj.NewMapXml(x)
+					b, e3 = mxj.NewMapXml(x, castSkip)
 				}
 				m1, m2 = a, b
 			}
